@@ -14,7 +14,7 @@ LEVEL_TEXT = ("TLC checks on bounded instances (2 observables x 3 observers, eve
               "gives unique, per-thread increasing stamp values under all interleavings of 3-4 threads and that the load/store variant does not "
               "(negative control, required). Binding: all histories up to a budgeted length, one history per transition of the complete state "
               "graph and seeded random walks are replayed on real Observable/Observer objects (stand-alone and base-class/member use, both "
-              "teardown orders) under ASan+UBSan and on real TimeStamp objects, comparing every return value / rank vector with TLC's; recorded "
+              "destruction orders) under ASan+UBSan and on real TimeStamp objects, comparing every return value / rank vector with TLC's; recorded "
               "random 250-step executions over larger universes and multi-threaded bursts of 2-8 threads creating, renewing, copying and moving "
               "stamps (also under TSan) are validated by TLC trace specifications on the logged values")
 LEVEL_NOTE = ("bounded: exhaustive parts use 2 observables x 3 observers, 3 stamp cells, 3-4 threads x 2-3 counter operations; the real "
@@ -31,11 +31,11 @@ API_OBS = "Observer"
 API_TS = "TimeStamp"
 API_TSC = "TimeStamp/concurrent"
 
-MUT_OBS = {"Notify", "Poll", "PollAll", "DestroyObservable", "DestroyObserver"}
-ALL_OBS = ["CreateObservable", "CreateObserver", "Notify", "Poll", "PollAll", "DestroyObservable", "DestroyObserver"]
+MUT_OBS = {"Notify", "Poll", "PollAll", "DestroyObservable", "DestroyObserver", "Teardown"}
+ALL_OBS = ["CreateObservable", "CreateObserver", "Notify", "Poll", "PollAll", "DestroyObservable", "DestroyObserver", "Teardown"]
 MUT_TS = {"Renew", "CopyCtor", "MoveCtor", "CopyAssign", "MoveAssign", "Destroy"}
 ALL_TS = ["Create", "Renew", "CopyCtor", "MoveCtor", "CopyAssign", "MoveAssign", "Destroy"]
-OBS_VARIANTS = [("plain", "observers_first"), ("plain", "observables_first"), ("derived", "observers_first"), ("derived", "observables_first")]
+OBS_VARIANTS = ["plain", "derived"]
 TRACE_NS, TRACE_NW, TRACE_NC = 3, 6, 5
 
 
@@ -46,7 +46,7 @@ def rand_observer_actions(rnd, n, ns=TRACE_NS, nw=TRACE_NW):
     oalive, balive = set(), set()       # the generator's guess of what is alive: keeps most actions enabled; nothing relies on it
     acts = []
     kinds = [("CreateObservable", 10), ("CreateObserver", 18), ("Notify", 22), ("Poll", 28), ("PollAll", 5),
-             ("DestroyObservable", 7), ("DestroyObserver", 10)]
+             ("DestroyObservable", 7), ("DestroyObserver", 10), ("Teardown", 1)]
     names, weights = [k for k, _ in kinds], [w for _, w in kinds]
     while len(acts) < n:
         kind = rnd.choices(names, weights)[0]
@@ -67,9 +67,14 @@ def rand_observer_actions(rnd, n, ns=TRACE_NS, nw=TRACE_NW):
             elif kind in ("Poll", "DestroyObserver"):
                 if not balive: continue
                 b = rnd.choice(sorted(balive))
-            elif not balive:
+            elif kind == "PollAll" and not balive:
                 continue
-        if kind == "CreateObservable":
+            elif kind == "Teardown" and not (balive or oalive):
+                continue
+        if kind == "Teardown":
+            a = {"a": kind, "arg": {"order": rnd.choice(["observers_first", "observables_first"])}}
+            oalive.clear(); balive.clear()
+        elif kind == "CreateObservable":
             a = {"a": kind, "arg": {"o": o}}
             oalive.add(o)
         elif kind == "CreateObserver":
@@ -140,7 +145,7 @@ def rand_stamp_actions(rnd, n, nc=TRACE_NC):
 # recorded sequential executions -> TLC  (adtcheck.record_and_validate plus statistics and a corruption guard)
 # ---------------------------------------------------------------------------
 def record_validate(chk, exe, module, acts, tag, sig_prefix, meta, isolate=4):
-    res, rc, stderr, wall = adt.run_driver(exe, acts, tag + "-rec", isolate=isolate, meta=meta)
+    res, rc, stderr, wall = adt.run_driver(exe, acts, tag + "-rec", isolate=isolate, meta=meta, env=FAST_SAN)
     execs = []
     for i, al in enumerate(acts):
         r = res.get(i)
@@ -151,7 +156,7 @@ def record_validate(chk, exe, module, acts, tag, sig_prefix, meta, isolate=4):
             kind = "crash" if "crash" in r else "timeout"
             k = r[kind].get("step", 0)
             if k > 0:    # the events that led there: perform the prefix once more so that TLC sees them
-                res2, _, _, _ = adt.run_driver(exe, [al[:k]], tag + "-rec-prefix", isolate=1, meta=meta)
+                res2, _, _, _ = adt.run_driver(exe, [al[:k]], tag + "-rec-prefix", isolate=1, meta=meta, env=FAST_SAN)
                 for st, o in zip(al[:k], (res2.get(0) or {}).get("obs", [])):
                     ev.append({"a": st["a"], "arg": st.get("arg", []), "obs": o})
             ev.append({"a": kind, "arg": al[k].get("arg") if 0 <= k < len(al) else None,
@@ -337,8 +342,26 @@ def _compact(ev, at, ctx=6):
 
 
 def validate_bursts(chk, execs, configs, tag, san, stderr=""):
-    acc, rej, stats = trace.validate(os.path.join(SPEC, "StampsTrace.tla"), os.path.join(SPEC, "StampsTrace.cfg"),
-                                     execs, tag, reset_key="e", timeout=2400)
+    # one TLC run per group of bursts of at most ~600000 events (bounds TLC's memory; bursts are independent executions)
+    groups, cur, size = [], [], 0
+    for i, e in enumerate(execs):
+        if cur and size + len(e) > 600000:
+            groups.append(cur)
+            cur, size = [], 0
+        cur.append(i)
+        size += len(e)
+    if cur:
+        groups.append(cur)
+    acc, rej, stats = 0, [], {"events": 0, "wall": 0.0}
+    for grp in groups:
+        a, r, st = trace.validate(os.path.join(SPEC, "StampsTrace.tla"), os.path.join(SPEC, "StampsTrace.cfg"),
+                                  [execs[i] for i in grp], tag, reset_key="e", timeout=2400)
+        acc += a
+        for rj in r:
+            rj["exec"] = grp[rj["exec"]]
+        rej += r
+        stats["events"] += st["events"]
+        stats["wall"] += st["wall"]
     chk.cov["traces_validated_against_impl"] += acc + len(rej)
     chk.cov.setdefault("trace_events_validated", 0)
     chk.cov["trace_events_validated"] += stats["events"]
@@ -396,7 +419,7 @@ def burst_corruption_guard(chk, execs, rnd):
             k = rnd.choice([kk for kk, x in enumerate(ev) if x.get("e") == "Copy"])
             ev[k]["src"] = [ev[k]["src"][0], ev[k]["src"][1] + 1]
         else:                              # an event got lost on the way
-            k0 = rnd.choice(fresh)
+            k0 = rnd.choice([kk for kk in fresh if ev[kk + 1].get("e") != "Copy"])     # a value nobody copied
             del ev[k0]
             k = len(ev) - 1
         acc, rej, _ = trace.validate(os.path.join(SPEC, "StampsTrace.tla"), os.path.join(SPEC, "StampsTrace.cfg"), [ev], "c19-burst-corrupt", reset_key="e")
@@ -409,7 +432,7 @@ def burst_corruption_guard(chk, execs, rnd):
 
 def burst_configs(rnd, quick):
     cfgs = []
-    big = [(2, 4000), (4, 3000), (8, 2000)] if quick else [(2, 100000), (3, 30000), (4, 40000), (6, 20000), (8, 30000)]
+    big = [(2, 20000), (4, 10000), (8, 10000)] if quick else [(2, 100000), (3, 50000), (4, 100000), (6, 50000), (8, 100000)]
     for T, ops in big:
         cfgs.append({"threads": T, "ops": ops, "seed": rnd.randint(1, 10 ** 6), "shared": 3})
     # many short bursts: all threads hit the counter in their first few operations
@@ -420,6 +443,38 @@ def burst_configs(rnd, quick):
 
 
 # ---------------------------------------------------------------------------
+# bulk replays: sanitizer reports are not symbolised (a crashing build would otherwise spend its time in the symboliser);
+# `bin/check C19 --replay <artefact>` re-runs the one history with full reports
+FAST_SAN = {"ASAN_OPTIONS": adt.SAN_ENV["ASAN_OPTIONS"] + ":symbolize=0", "UBSAN_OPTIONS": "halt_on_error=1:exitcode=96:symbolize=0"}
+
+
+def split_stages(hs, info):
+    """gen_histories returns all-paths + transition cover + random walks, in this order: replay the cover's shortest
+    histories first, then the rest of the cover, the exhaustive paths, the long walks."""
+    na, nc = info["all_histories"], info["transition_cover"]
+    cover = sorted(hs[na:na + nc], key=len)
+    return [cover[:400], cover[400:], hs[:na], hs[na + nc:]]
+
+
+def staged_replay(chk, exe, stages, tag, sig_prefix, meta):
+    """adtcheck.replay stage by stage (shortest histories first); once a stage has produced mismatches the later,
+    longer histories of this variant are not replayed: the finding is made, and every later crash costs a process."""
+    total, bad, wall = 0, 0, 0.0
+    for i, hs in enumerate(stages):
+        if not hs:
+            continue
+        n, w = adtcheck.replay(chk, exe, hs, "%s-s%d" % (tag, i), sig_prefix, isolate=400, meta=meta, env=FAST_SAN)
+        total += len(hs)
+        bad += n
+        wall += w
+        if n:
+            left = sum(len(x) for x in stages[i + 1:])
+            if left:
+                chk.note("%s %s: %d of %d histories of stage %d mismatch; %d longer histories not replayed" % (sig_prefix, json.dumps(meta), n, len(hs), i, left))
+            break
+    return total, bad, wall
+
+
 def negative_control(chk, module, cfg, expect, what, r):
     """r: result of TLC on the negative-control instance; it MUST have refuted one of the `expect`ed invariants."""
     if r.violated not in expect:
@@ -469,15 +524,20 @@ def run(chk, replay=None):
         return tla.run_tlc(os.path.join(SPEC, j[1] + ".tla"), os.path.join(SPEC, j[2]), workers=4 if j[0] == "mc" else 2, timeout=3000,
                            tag="c19-" + j[2].replace(".cfg", ""))
 
-    with ThreadPoolExecutor(max_workers=4) as ex:
-        results = list(ex.map(tlc_job, jobs))
+    design = ThreadPoolExecutor(max_workers=4)       # runs beside the conformance pipeline; collected at the end
+    design_futures = [design.submit(tlc_job, j) for j in jobs]
+
+    def collect_design():
+        for j, f in zip(jobs, design_futures):
+            r = f.result()
+            if j[0] == "mc":
+                chk.require_model_ok(j[1] + "/" + j[2], r, j[3])
+            else:
+                negative_control(chk, j[1], j[2], j[4], j[3], r)
+        design.shutdown()
+
     guards = ThreadPoolExecutor(max_workers=3)      # corruption guards run beside the main pipeline; joined at the end
     pending_guards = []
-    for j, r in zip(jobs, results):
-        if j[0] == "mc":
-            chk.require_model_ok(j[1] + "/" + j[2], r, j[3])
-        else:
-            negative_control(chk, j[1], j[2], j[4], j[3], r)
 
     # 2. observers: spec -> code ------------------------------------------------------------------------
     exe_o = build.build("drv_observers", san="address,undefined")
@@ -489,24 +549,25 @@ def run(chk, replay=None):
     classes = set((st["a"], st.get("cls")) for h in hs for st in h)
     need = [("Poll", "orphaned"), ("Poll", "notified"), ("Poll", "not-notified"), ("DestroyObservable", "observed"),
             ("DestroyObservable", "unobserved"), ("DestroyObserver", "attached"), ("DestroyObserver", "orphaned"),
-            ("CreateObserver", "further"), ("Notify", "observed")]
+            ("CreateObserver", "further"), ("Notify", "observed"), ("Teardown", "attached"), ("Teardown", "detached")]
     missing = [c for c in need if c not in classes]
     if missing:
         raise InfraError("vacuity guard: input classes never generated: %s" % missing)
     chk.cov["generation_Observers"] = info
     nd = adtcheck._nontrivial_distinct(hs, MUT_OBS)
-    for variant, teardown in OBS_VARIANTS:
-        meta = {"variant": variant, "teardown": teardown, "nw": 3}
-        n, wall = adtcheck.replay(chk, exe_o, hs, "c19-obs-%s-%s" % (variant, teardown), API_OBS, isolate=400, meta=meta)
-        chk.log("Observer %s/%s: %d histories replayed (%d mismatching) in %.1fs" % (variant, teardown, len(hs), n, wall))
+    stages = split_stages(hs, info)
+    for variant in OBS_VARIANTS:
+        meta = {"variant": variant, "nw": 3}
+        tot, n, wall = staged_replay(chk, exe_o, stages, "c19-obs-%s" % variant, API_OBS, meta)
+        chk.log("Observer %s: %d histories replayed (%d mismatching) in %.1fs" % (variant, tot, n, wall))
         chk.cov["distinct_nontrivial"] += nd
     chk.add_sample({"kind": "history", "object": "Observable/Observer", "steps": hs[len(hs) // 2]})
 
     # 3. observers: code -> spec ------------------------------------------------------------------------
     nexec = 20 if quick else 200
-    for variant, teardown in (OBS_VARIANTS[1], OBS_VARIANTS[2]):
+    for variant in OBS_VARIANTS:
         acts = [rand_observer_actions(rnd, 250) for _ in range(nexec)]
-        meta = {"variant": variant, "teardown": teardown, "nw": TRACE_NW}
+        meta = {"variant": variant, "nw": TRACE_NW}
         acc, rej, execs = record_validate(chk, exe_o, "ObserversTrace", acts, "c19-obs-%s" % variant, API_OBS, meta)
         chk.cov["evaluations"] += nexec
         if not rej:
@@ -526,8 +587,8 @@ def run(chk, replay=None):
     chk.count_actions(hs2)
     chk.require_actions(ALL_TS)
     chk.cov["generation_StampCells"] = info2
-    n, wall = adtcheck.replay(chk, exe_c, hs2, "c19-cells", API_TS, isolate=400, meta={"nc": 3})
-    chk.log("TimeStamp cells: %d histories replayed (%d mismatching) in %.1fs" % (len(hs2), n, wall))
+    tot, n, wall = staged_replay(chk, exe_c, split_stages(hs2, info2), "c19-cells", API_TS, {"nc": 3})
+    chk.log("TimeStamp cells: %d histories replayed (%d mismatching) in %.1fs" % (tot, n, wall))
     chk.cov["distinct_nontrivial"] += adtcheck._nontrivial_distinct(hs2, MUT_TS)
     chk.add_sample({"kind": "history", "object": "TimeStamp", "steps": hs2[len(hs2) // 3]})
     acts = [rand_stamp_actions(rnd, 250) for _ in range(nexec)]
@@ -565,13 +626,14 @@ def run(chk, replay=None):
     chk.cov["concurrent_bursts"]["tsan"] = len(tcfgs)
     chk.cov["concurrent_bursts"]["events"] += sum(len(e) for e in execs_t)
     chk.cov["evaluations"] += len(cfgs) + len(tcfgs)
+    collect_design()
     for g in pending_guards:
         g.result()                                   # re-raises an InfraError of a guard
     guards.shutdown()
     chk.cov["rule"] = ("histories = paths of TLC's complete state graphs of the bounded instances (all paths up to the budgeted length, one shortest "
                        "path per transition, seeded random walks); non-trivial = contains a notification / poll / destruction (observers) or a "
                        "renewal / copy / move / destruction (stamps); distinct = distinct (action,argument) sequences, observers counted per "
-                       "object variant and teardown order; plus recorded random executions and concurrent bursts, each counted once in evaluations")
+                       "object variant; plus recorded random executions and concurrent bursts, each counted once in evaluations")
 
 
 def do_replay(chk, path):
